@@ -124,7 +124,7 @@ class Translator:
             raise Unsupported(f"{name}: no source ({e})") from e
         tree = ast.parse(src)
         node = tree.body[0]
-        where = f"{os.path.relpath(file, '/repo')}:{line0}"
+        where = f"{os.path.relpath(file, os.environ.get('VERIF_REPO', '/repo'))}:{line0}"
         if isinstance(node, ast.Assign) and isinstance(node.value, ast.Lambda):
             raise Unsupported(f"{where}: lambda")
         if not isinstance(node, ast.FunctionDef):
@@ -681,7 +681,7 @@ def main():
     tr = Translator().run()
     os.makedirs(os.path.join(VERIF, "gen"), exist_ok=True)
     index = {
-        "repo_head": os.popen("git -C /repo rev-parse HEAD 2>/dev/null").read().strip(),
+        "repo_head": os.popen("git -C %s rev-parse HEAD 2>/dev/null" % os.environ.get("VERIF_REPO", "/repo")).read().strip(),
         "errors": tr.errors, "warnings": tr.warnings,
         "missing_keys": tr.missing,
         "n_entries": sum(len(t["entries"]) for t in tr.tables.values()),
